@@ -188,8 +188,31 @@ pub fn fire_exit() {
     EXIT_FIRED_AT.store(now_ns() as i64, SeqCst);
 }
 
+/// Spin guard (off while SPIN_LIMIT is 0): status checks without WNOHANG blocking that follow one another with no
+/// sleep of a positive length in between.  When SPIN_LIMIT of them have been seen the loop is a busy-wait; on the
+/// virtual clock (where a clock read costs one tick) it would not reach a deadline weeks away in the lifetime of
+/// the run, so the guard records it and lets the clock run ahead by a hundred days to bring the call to its end.
+pub static SPIN_LIMIT: AtomicU64 = AtomicU64::new(0);
+pub static SPIN_COUNT: AtomicU64 = AtomicU64::new(0);
+pub static SPINS_BROKEN: AtomicU64 = AtomicU64::new(0);
+
+pub fn note_status_check() {
+    let lim = SPIN_LIMIT.load(SeqCst);
+    if lim == 0 || !pure() {
+        return;
+    }
+    if SPIN_COUNT.fetch_add(1, SeqCst) + 1 >= lim {
+        SPINS_BROKEN.fetch_add(1, SeqCst);
+        SPIN_COUNT.store(0, SeqCst);
+        sleep_virtual(100 * 86_400 * 1_000_000_000);
+    }
+}
+
 /// A sleep of `req_ns` issued by the subject: advance the virtual clock instead of sleeping.
 pub fn sleep_virtual(req_ns: i64) {
+    if req_ns > 0 {
+        SPIN_COUNT.store(0, SeqCst);
+    }
     let j = jitter();
     let total = req_ns.saturating_add(j);
     SLEEPS.fetch_add(1, SeqCst);
